@@ -32,7 +32,13 @@ func (r Reply) Class() int { return r.Code / 100 }
 // >= 0x80 only. It returns the replies parsed before the first fault and an
 // error describing the fault. A stream that ends in the middle of a line or of
 // a multi-line reply is a fault (the server writes replies whole).
-func ParseReplies(raw []byte) ([]Reply, error) {
+func ParseReplies(raw []byte) ([]Reply, error) { return parseReplies(raw, true) }
+
+// ParseRepliesLenient is ParseReplies without the restriction on text octets
+// (for oracles that are not about reply syntax).
+func ParseRepliesLenient(raw []byte) ([]Reply, error) { return parseReplies(raw, false) }
+
+func parseReplies(raw []byte, strictText bool) ([]Reply, error) {
 	var out []Reply
 	pos := 0
 	var cur *Reply
@@ -69,6 +75,9 @@ func ParseReplies(raw []byte) ([]Reply, error) {
 			text = string(line[4:])
 		}
 		for _, ch := range []byte(text) {
+			if !strictText {
+				break
+			}
 			if ch == '\t' || (ch >= 0x20 && ch <= 0x7e) || ch >= 0x80 {
 				continue
 			}
